@@ -135,14 +135,26 @@ func builtinObjectDefineProperties(call FunctionCall) Value {
 		panic(call.runtime.panicTypeError("Object.DefineProperties is nil"))
 	}
 
-	properties := call.runtime.toObject(call.Argument(1))
-	properties.enumerate(false, func(name string) bool {
-		descriptor := toPropertyDescriptor(call.runtime, properties.get(name))
-		obj.defineOwnProperty(name, descriptor, true)
-		return true
-	})
+	objectDefineProperties(call.runtime, obj, call.runtime.toObject(call.Argument(1)))
 
 	return val
+}
+
+// objectDefineProperties is 15.2.3.7 steps 3-7: every descriptor is converted
+// (and may throw) before the first property is defined.
+func objectDefineProperties(rt *runtime, obj, properties *object) {
+	type namedDescriptor struct {
+		name       string
+		descriptor property
+	}
+	var descriptors []namedDescriptor
+	properties.enumerate(false, func(name string) bool {
+		descriptors = append(descriptors, namedDescriptor{name, toPropertyDescriptor(rt, properties.get(name))})
+		return true
+	})
+	for _, entry := range descriptors {
+		obj.defineOwnProperty(entry.name, entry.descriptor, true)
+	}
 }
 
 func builtinObjectCreate(call FunctionCall) Value {
@@ -156,12 +168,7 @@ func builtinObjectCreate(call FunctionCall) Value {
 
 	propertiesValue := call.Argument(1)
 	if propertiesValue.IsDefined() {
-		properties := call.runtime.toObject(propertiesValue)
-		properties.enumerate(false, func(name string) bool {
-			descriptor := toPropertyDescriptor(call.runtime, properties.get(name))
-			obj.defineOwnProperty(name, descriptor, true)
-			return true
-		})
+		objectDefineProperties(call.runtime, obj, call.runtime.toObject(propertiesValue))
 	}
 
 	return objectValue(obj)
